@@ -1,0 +1,12 @@
+//! Read-only accessors for the verification harness (`--cfg qcow2_rs_verif`).
+use super::L1Table;
+
+impl L1Table {
+    pub fn verif_dirty_blocks(&self) -> Vec<u32> {
+        self.dirty_blocks.borrow().iter().copied().collect()
+    }
+
+    pub fn verif_header_entries(&self) -> u32 {
+        self.header_entries
+    }
+}
